@@ -2,5 +2,100 @@
 From PP Require Import Unicode.FlattenDefs Unicode.MainDefs.
 Local Open Scope Z_scope.
 
+(* ---------- Flatten::Apply terminates (the fuel error is unreachable) ---------- *)
+Section ApplyTotal.
+Variable isspace : Z -> bool.
+Local Opaque flatten_copy_advances_by_length.
+
+Lemma u16_length_pos c : (1 <= u16_length c)%nat.
+Proof. unfold u16_length. destruct (c <? 65536); lia. Qed.
+
+Lemma apply_loop_total d inp : forall fuel i, (length inp - i < fuel)%nat ->
+  exists r, apply_loop isspace fuel d inp i = Some r.
+Proof.
+  induction fuel as [|f IH]; intros i Hf; [lia|].
+  simpl. destruct (Nat.ltb i (length inp)) eqn:Ei; [|eexists; reflexivity].
+  apply Nat.ltb_lt in Ei.
+  destruct (lookup d (char32_at inp i)) as [st|].
+  - destruct (try_longer isspace inp i (st_longer st)) as [[to n]|].
+    + destruct (IH (i + n + 1)%nat) as [r Hr]; [lia|]. rewrite Hr. eexists; reflexivity.
+    + destruct (IH (i + 1)%nat) as [r Hr]; [lia|]. rewrite Hr. eexists; reflexivity.
+  - pose proof (u16_length_pos (char32_at inp i)).
+    destruct (IH (i + (if flatten_copy_advances_by_length then u16_length (char32_at inp i) else 1))%nat) as [r Hr].
+    { destruct flatten_copy_advances_by_length; lia. }
+    rewrite Hr. eexists; reflexivity.
+Qed.
+
+Lemma flatten_apply_total d inp : exists r, flatten_apply isspace d inp = Some r.
+Proof. unfold flatten_apply. apply apply_loop_total. lia. Qed.
+End ApplyTotal.
+Local Transparent flatten_copy_advances_by_length.
+
+(* Flatten::Apply as a total function *)
+Definition flatten_fn (isspace : Z -> bool) (d : flatdata) (u : list Z) : list Z :=
+  match flatten_apply isspace d u with Some r => r | None => [] end.
+
+Lemma flatten_apply_fn isspace d u : flatten_apply isspace d u = Some (flatten_fn isspace d u).
+Proof. unfold flatten_fn. destruct (flatten_apply_total isspace d u) as [r Hr]. rewrite Hr. reflexivity. Qed.
+
 Lemma flatten_apply_empty isspace d : flatten_apply isspace d [] = Some [].
 Proof. reflexivity. Qed.
+
+(* ---------- the main loop ---------- *)
+Section Pipeline.
+Variables (lower nfkc : list Z -> list Z) (isspace : Z -> bool).
+
+(* what every line must become: the requested transforms, in this order *)
+Definition pipe (d : flatdata) (fl : flags) (u : list Z) : list Z :=
+  let u := if f_lower fl then lower u else u in
+  let u := if f_flatten fl then flatten_fn isspace d u else u in
+  if f_normalize fl then nfkc u else u.
+
+Lemma get_cur_set_cur b v : get_cur (set_cur b v) = v.
+Proof. unfold get_cur, set_cur. destruct (cur1 b); reflexivity. Qed.
+
+Lemma get_cur_swap_set_tmp b v : get_cur (swap (set_tmp b v)) = v.
+Proof. unfold get_cur, swap, set_tmp. destruct (cur1 b); reflexivity. Qed.
+
+(* one iteration, from ANY state of the two buffers and of cur/tmp *)
+Lemma process_line_spec d fl b line u : from_utf8 line = Some u ->
+  exists b', process_line lower nfkc isspace d fl b line = LOk b' (to_utf8 (pipe d fl u) ++ [10]).
+Proof.
+  intros Hu. unfold process_line, pipe. rewrite Hu. unfold pu_prints_cur.
+  destruct fl as [lo fla no]. simpl.
+  destruct lo, fla, no; simpl;
+    repeat rewrite ?flatten_apply_fn, ?get_cur_set_cur, ?get_cur_swap_set_tmp;
+    eexists; reflexivity.
+Qed.
+
+Lemma process_lines_spec d fl : forall ls us b,
+  Forall2 (fun l u => from_utf8 l = Some u) ls us ->
+  process_lines lower nfkc isspace d fl b ls
+  = POk (concat (map (fun u => to_utf8 (pipe d fl u) ++ [10]) us)).
+Proof.
+  induction ls as [|l r IH]; intros us b H; inversion H as [|? u ? us' Hl Hr]; subst; [reflexivity|].
+  simpl. destruct (process_line_spec d fl b l u Hl) as [b' E]. rewrite E.
+  rewrite (IH us' b' Hr). reflexivity.
+Qed.
+
+Lemma nth_concat_lines {A} (f : A -> list Z) (us : list A) :
+  forall i u, nth_error us i = Some u -> nth_error (map f us) i = Some (f u).
+Proof. intros i u H. apply map_nth_error. exact H. Qed.
+
+Theorem pipeline_spec_proof lang fl d ls us :
+  flatten_for lang = Some d ->
+  Forall2 (fun l u => from_utf8 l = Some u) ls us ->
+  no_delim 10 (concat ls) = true ->
+  process_unicode lower nfkc isspace lang fl (unrecords 10 ls)
+  = POk (unrecords 10 (map (fun u => to_utf8 (pipe d fl u)) us)).
+Proof.
+  intros Hd Hu Hlf. unfold process_unicode. rewrite Hd.
+  assert (forallb (no_delim 10) ls = true) as Hl.
+  { clear -Hlf. induction ls as [|l r IH]; [reflexivity|]. simpl in *.
+    unfold no_delim in *. rewrite forallb_app in Hlf. apply andb_true_iff in Hlf.
+    destruct Hlf as [H1 H2]. rewrite H1. simpl. apply IH. exact H2. }
+  rewrite (records_unrecords 10 ls Hl).
+  rewrite (process_lines_spec d fl ls us init_bufs Hu).
+  f_equal. unfold unrecords. rewrite flat_map_concat_map, map_map. reflexivity.
+Qed.
+End Pipeline.
